@@ -1489,7 +1489,7 @@ def _rand_case(rng):
 
 
 def generate(rng, tier):
-    count = 700 if tier == "quick" else 14000
+    count = 1000 if tier == "quick" else 20000
     for _ in range(count):
         yield _rand_case(rng)
 
